@@ -83,9 +83,10 @@ def P1(ctx, facts):
     sites = pushguard_sites(facts)
     ctx.floor("idle-push-callers", len(sites), 1, "call sites of IdleConnections::push")
     for c in sites:
-        ctx.check(c.fn.key == pool_push.key, "caller|%s" % c.fn.nkey,
-                  "IdleConnections::push is called from PoolInner::push",
-                  "IdleConnections::push called from %s" % c.fn.nkey, c.where())
+        # any method of PoolInner may host the entrance (helper extraction is fine); C15's P6 checks the bound at every site
+        ctx.check(c.fn.nkey.startswith("client::pool::PoolInner::") and "{closure" not in c.fn.nkey, "caller|%s" % c.fn.nkey,
+                  "IdleConnections::push is called from a PoolInner method (%s)" % c.fn.nkey.split("::")[-1],
+                  "IdleConnections::push called from outside PoolInner: %s" % c.fn.nkey, c.where())
     # Idle::new stamps Instant::now and is the only constructor of Idle
     idle_new = facts.fn("client::pool::idle::Idle::new")
     aggs = []
@@ -128,15 +129,14 @@ def lt_fact(fn, lab):
 
 def P6(ctx, facts):
     """The idle-list entrance is guarded by `idle.len() < config.max_idle_per_host`; config is immutable."""
-    pool_push = facts.fn("client::pool::PoolInner::push")
-    ctx.touched(pool_push)
-    sites = [c for c in pushguard_sites(facts) if c.fn.key == pool_push.key]
+    sites = pushguard_sites(facts)
     if not sites:
-        return ctx.missing("anchor", "no IdleConnections::push call in PoolInner::push")
+        return ctx.missing("anchor", "no IdleConnections::push call in the crate")
     for c in sites:
-        recv_roots = pool_push.roots(c.args[0])
+        pool_push = c.fn
+        ctx.touched(pool_push)
 
-        def is_bound(lab, c=c):
+        def is_bound(lab, c=c, pool_push=pool_push):
             f = lt_fact(pool_push, lab)
             if f is None:
                 return False
@@ -149,7 +149,7 @@ def P6(ctx, facts):
             return a_ok and b_ok
 
         ok, wit = pool_push.guarded(c.bb, is_bound)
-        ctx.check(ok, "PoolInner::push|idle-push-bounded",
+        ctx.check(ok, "%s|idle-push-bounded" % pool_push.nkey.replace("client::pool::", ""),
                   "IdleConnections::push is dominated by the edge `idle.len() < self.config.max_idle_per_host`",
                   "a path reaches the idle-list entrance without passing `idle.len() < config.max_idle_per_host`",
                   c.where(), pool_push.path_desc(wit))
@@ -183,12 +183,37 @@ def P6(ctx, facts):
 
 # ------------------------------------------------------------------ P2
 
+def entrance_fns(facts):
+    """PoolInner methods that contain an idle-list entrance (today: PoolInner::push). A helper split such as
+    push = deliver + insert keeps working: the rules follow the entrance, not the name."""
+    out = []
+    for c in pushguard_sites(facts):
+        f = c.fn
+        if f.nkey.startswith("client::pool::PoolInner::") and "{closure" not in f.nkey and f not in out:
+            out.append(f)
+    return out
+
+
 def _push_sites(facts):
-    return facts.call_sites_of("client::pool::PoolInner::push")
+    """Call sites, outside PoolInner, of the functions through which a connection can become idle."""
+    names = [f.nkey for f in entrance_fns(facts)] or ["client::pool::PoolInner::push"]
+    return [c for c in facts.call_sites_of(*names) if not c.fn.nkey.startswith("client::pool::PoolInner::")]
 
 
-def P2(ctx, facts, allow_checkout_drop=True):
-    """Who may hand a connection to the pool, and under which guards."""
+ALL_P2 = ("callers", "open-guard", "token-guard", "conn", "token")
+
+
+def P2(ctx, facts, allow_checkout_drop=True, aspects=ALL_P2):
+    """Who may hand a connection to the pool, and under which guards.
+
+    aspects: callers (who-may-call + expected callers present), open-guard (is_open of the pushed connection),
+    token-guard (non-zero token), conn (provenance of the pushed connection), token (provenance of the token).
+    Each property includes only the aspects that are necessary conditions of *that* property."""
+    A = set(aspects)
+
+    def chk(aspect, cond, key, ok_text, bad_text, where=None, wit=None):
+        if aspect in A:
+            ctx.check(cond, key, ok_text, bad_text, where, wit)
     when_drop = facts.method("client::pool::WhenReady", "Drop", "drop")
     reg = facts.fn("client::pool::checkout::register_connected")
     allowed = {when_drop.key: "WhenReady::drop", reg.key: "register_connected"}
@@ -213,58 +238,73 @@ def P2(ctx, facts, allow_checkout_drop=True):
         croots = f.roots(conn)
         if f.key == when_drop.key:
             ok1, w1 = f.guarded(c.bb, L_call(f, "client::pool::PoolableConnection::is_open", True))
-            ctx.check(ok1, "WhenReady::drop|guard-is_open", "hand-back is guarded by connection.is_open() == true",
-                      "hand-back reachable without is_open() == true", c.where(), f.path_desc(w1))
-            # the is_open receiver must be the connection that is pushed
-            isopen = [s for s in f.calls("client::pool::PoolableConnection::is_open")]
+            chk("open-guard", ok1, "WhenReady::drop|guard-is_open", "hand-back is guarded by connection.is_open() == true",
+                "hand-back reachable without is_open() == true", c.where(), f.path_desc(w1))
+            isopen = [s_ for s_ in f.calls("client::pool::PoolableConnection::is_open")]
             same = False
-            for s in isopen:
-                r1 = {r.desc for r in f.roots(s.args[0]) if r.kind in ("call", "arg")}
+            for s_ in isopen:
+                r1 = {r.desc for r in f.roots(s_.args[0]) if r.kind in ("call", "arg")}
                 r2 = {r.desc for r in croots if r.kind in ("call", "arg")}
                 if r1 & r2:
                     same = True
-            ctx.check(same, "WhenReady::drop|is_open-subject", "is_open() is asked of the connection that is pushed",
-                      "is_open() receiver differs from the pushed connection", c.where())
+            chk("open-guard", same, "WhenReady::drop|is_open-subject", "is_open() is asked of the connection that is pushed",
+                "is_open() receiver differs from the pushed connection", c.where())
             ok2, w2 = f.guarded(c.bb, L_call(f, "client::pool::key::Token::is_zero", False))
-            ctx.check(ok2, "WhenReady::drop|guard-token", "hand-back is guarded by token.is_zero() == false",
-                      "hand-back reachable with a zero token", c.where(), f.path_desc(w2))
+            chk("token-guard", ok2, "WhenReady::drop|guard-token", "hand-back is guarded by token.is_zero() == false",
+                "hand-back reachable with a zero token", c.where(), f.path_desc(w2))
             ok3 = any(r.kind == "call" and r.site.is_("std::option::Option::take", "core::option::Option::take") for r in croots) \
                 and any(r.kind == "arg" and r.desc.endswith("self.connection") for r in croots)
-            ctx.check(ok3, "WhenReady::drop|conn-root", "pushed connection is self.connection.take()",
-                      "pushed connection roots: %s" % sorted(map(repr, croots)), c.where())
+            chk("conn", ok3, "WhenReady::drop|conn-root", "pushed connection is self.connection.take()",
+                "pushed connection roots: %s" % sorted(map(repr, croots)), c.where())
             troots = f.roots(c.args[1])
-            ctx.check(all(r.kind == "arg" and r.desc == "self.token" for r in troots) and troots,
-                      "WhenReady::drop|token-root", "pushed under self.token",
-                      "token roots: %s" % sorted(map(repr, troots)), c.where())
+            chk("token", bool(troots) and all(r.kind == "arg" and r.desc == "self.token" for r in troots),
+                "WhenReady::drop|token-root", "pushed under self.token",
+                "token roots: %s" % sorted(map(repr, troots)), c.where())
         elif f.key == reg.key:
             ok = any(r.kind == "call" and r.site.is_("client::pool::PoolableConnection::reuse") for r in f.roots(conn, through_calls=False))
-            ctx.check(ok, "register_connected|pushed-is-reuse", "only the clone returned by reuse() is pushed; the original stays with the caller",
-                      "pushed value does not come from reuse(): %s" % sorted(map(repr, f.roots(conn, through_calls=False))), c.where())
+            chk("conn", ok, "register_connected|pushed-is-reuse", "only the clone returned by reuse() is pushed; the original stays with the caller",
+                "pushed value does not come from reuse(): %s" % sorted(map(repr, f.roots(conn, through_calls=False))), c.where())
             okg, w = f.guarded(c.bb, L_variant(f, "Some", of_call="client::pool::PoolableConnection::reuse"))
-            ctx.check(okg, "register_connected|guard-some", "push happens on reuse()'s Some edge",
-                      "push reachable outside reuse()'s Some edge", c.where(), f.path_desc(w))
+            chk("conn", okg, "register_connected|guard-some", "push happens on reuse()'s Some edge",
+                "push reachable outside reuse()'s Some edge", c.where(), f.path_desc(w))
             troots = f.roots(c.args[1])
-            ctx.check(troots and all(r.kind == "arg" and r.desc == "token" for r in troots), "register_connected|token-root",
-                      "pushed under the caller's token", "token roots: %s" % sorted(map(repr, troots)), c.where())
+            chk("token", bool(troots) and all(r.kind == "arg" and r.desc == "token" for r in troots), "register_connected|token-root",
+                "pushed under the caller's token", "token roots: %s" % sorted(map(repr, troots)), c.where())
         else:
-            # Checkout pinned drop: may only return the connection it popped and never used
             ok = any(r.kind == "arg" and "connection" in r.desc for r in croots) and \
                 any(r.kind == "call" and r.site.is_("std::option::Option::take", "core::option::Option::take") for r in croots)
-            ctx.check(ok, "Checkout::drop|conn-root", "pushed connection is the checkout's own unused `connection` field",
-                      "pushed connection roots: %s" % sorted(map(repr, croots)), c.where())
+            chk("conn", ok, "Checkout::drop|conn-root", "pushed connection is the checkout's own unused `connection` field",
+                "pushed connection roots: %s" % sorted(map(repr, croots)), c.where())
             troots = sig(f.roots(c.args[1]))
-            ctx.check(troots and all(r.kind == "arg" and r.desc.endswith("token") for r in troots), "Checkout::drop|token-root",
-                      "pushed under the checkout's own token", "token roots: %s" % sorted(map(repr, troots)), c.where())
+            chk("token", bool(troots) and all(r.kind == "arg" and r.desc.endswith("token") for r in troots), "Checkout::drop|token-root",
+                "pushed under the checkout's own token", "token roots: %s" % sorted(map(repr, troots)), c.where())
             okg, w = f.guarded(c.bb, L_call(f, "client::pool::PoolableConnection::is_open", True))
-            ctx.check(okg, "Checkout::drop|guard-is_open", "return of an unused connection is guarded by is_open()",
-                      "unused connection handed back without is_open()", c.where(), f.path_desc(w))
+            chk("open-guard", okg, "Checkout::drop|guard-is_open", "return of an unused connection is guarded by is_open()",
+                "unused connection handed back without is_open()", c.where(), f.path_desc(w))
+
+
+def P2_aspects(*aspects):
+    def rule(ctx, facts):
+        return P2(ctx, facts, aspects=aspects)
+    return rule
 
 
 # ------------------------------------------------------------------ P3
 
-def P3(ctx, facts):
-    """Pooled::drop routes an exclusive connection only through a spawned WhenReady; WhenReady resolves
-    only on poll_ready's Ready edge."""
+def P3(ctx, facts, parts=("route", "ready")):
+    """Pooled::drop routes an exclusive connection only through a spawned WhenReady (part `route`); WhenReady resolves
+    only on poll_ready's Ready edge (part `ready`)."""
+    if "route" in parts:
+        _P3_route(ctx, facts)
+    if "ready" in parts:
+        _P3_ready(ctx, facts)
+
+
+def P3_route(ctx, facts):
+    return P3(ctx, facts, parts=("route",))
+
+
+def _P3_route(ctx, facts):
     pd = facts.method("client::pool::Pooled", "Drop", "drop")
     ctx.touched(pd)
     spawns = pd.calls("tokio::spawn", "tokio::task::spawn")
@@ -300,7 +340,9 @@ def P3(ctx, facts):
                                                  "std::clone::Clone::clone", "core::clone::Clone::clone")]
     ctx.check(not others, "Pooled::drop|no-other-consumer", "Pooled::drop calls nothing else that could receive the connection",
               "unexpected calls in Pooled::drop: %s" % [norm(c.name) for c in others])
-    # WhenReady::poll
+
+
+def _P3_ready(ctx, facts):
     wp = facts.method("client::pool::WhenReady", "Future", "poll")
     ctx.touched(wp)
     ready_blocks = [b for (b, i, s) in wp.aggregates("core::task::poll::Poll", "Ready")] + \
@@ -349,7 +391,8 @@ def P4(ctx, facts):
     ctx.floor("reuse-sites", len(sites), 3, "call sites of PoolableConnection::reuse")
     for c in sites:
         inpr = c.fn.key == pr.key or c.fn.d.get("parent") == pr.key
-        ctx.check(c.fn.nkey in allowed or inpr, "reuse-caller|%s" % c.fn.nkey, "reuse() called from a pool-internal site",
+        in_inner = c.fn.nkey.startswith("client::pool::PoolInner::") and "{closure" not in c.fn.nkey
+        ctx.check(c.fn.nkey in allowed or inpr or in_inner, "reuse-caller|%s" % c.fn.nkey, "reuse() called from a pool-internal site",
                   "reuse() called from unexpected function", c.where())
     # HttpConnection per-variant agreement
     cs = facts.method("client::conn::connection::HttpConnection", "PoolableConnection", "can_share")
@@ -414,8 +457,8 @@ def C02_2(ctx, facts):
               "Pooled::take is public")
     callers = facts.call_sites_of("client::pool::Pooled::take")
     for c in callers:
-        ctx.check(c.fn.nkey == "client::pool::PoolInner::push", "Pooled::take|caller|%s" % c.fn.nkey,
-                  "Pooled::take is used only by PoolInner::push to recover an undelivered connection",
+        ctx.check(c.fn.nkey.startswith("client::pool::PoolInner::") and "{closure" not in c.fn.nkey, "Pooled::take|caller|%s" % c.fn.nkey,
+                  "Pooled::take is used only inside PoolInner to recover an undelivered connection",
                   "Pooled::take called from %s" % c.fn.nkey, c.where())
     ctx.floor("Pooled::take|callers", len(callers), 1, "callers of Pooled::take")
 
